@@ -47,6 +47,9 @@ Argument classification (constructor of [argexpr]):
   AExpr r names     anything else; r is the source text, names the free Names in it
   AStar r / AStarStar r    `*e` / `**e`
 
+Besides the sites the file lists [unread_params]: for every public function of the
+wrapper modules, its parameters that no expression of its body ever reads.
+
 Fail-closed (exit 2, message names construct, file, line):
   * positional-only parameters in a callee signature,
   * two EoN modules defining the same function name with different signatures when
@@ -203,6 +206,7 @@ class Translator:
         self.builtins = set(dir(builtins))
         self.sites = []
         self.fn_values = []
+        self.unread = []     # public function -> parameters never read in its body
         self.notes = []
 
     # ---------------------------------------------------------- resolution --
@@ -302,6 +306,11 @@ class Translator:
     def do_wrapper(self, mod, wname, fn):
         M = self.mods[mod]
         wparams = own_params(fn)
+        if not wname.startswith('_'):
+            read = {n.id for n in ast.walk(fn) if isinstance(n, ast.Name) and isinstance(n.ctx, ast.Load)}
+            un = [x for x in wparams if x not in read]
+            if un:
+                self.unread.append((wname, un))
         locs = bound_names(fn)
         localnames = set(locs) | set(wparams)
         # local variables holding EoN functions
@@ -429,6 +438,11 @@ class Translator:
         w('(* EoN functions used as values outside the recognised idioms (not sites): wrapper, function, line *)')
         w('Definition fn_values : list (string * string * N) :=')
         w('  ' + coq_list(['(%s, %s, %d%%N)' % (coq_str(a), coq_str(b), l) for a, b, l in self.fn_values]) + '.')
+        w('')
+        w('(* public functions (name not starting with _) with parameters that are never read')
+        w('   anywhere in their body: the caller\'s value cannot influence anything *)')
+        w('Definition unread_params : list (string * list string) :=')
+        w('  ' + coq_list(['(%s, %s)' % (coq_str(a), coq_list([coq_str(x) for x in b])) for a, b in self.unread]) + '.')
         return '\n'.join(L) + '\n'
 
 
